@@ -619,6 +619,8 @@ class Block:
             raise Unsupported("%d initialisers for %s" % (len(args), ty), n)
         parts = []
         for a, (cm, lf, ft) in zip(args, fields):
+            if ntag(a) != ft:       # after clang's implicit conversions an initialiser has its member's type
+                raise Unsupported("initialiser of %s.%s has type %s, table says %s" % (ty, cm, ntag(a), ft), n)
             if ft in INT_RANGE or ft == "f64":
                 parts.append("%s := %s" % (lf, self.as_tag(a, ft)))
             else:
@@ -636,6 +638,8 @@ class Block:
                 raise Unsupported("initialiser list of " + ty, n)
             out = []
             for a, ft in zip(args, TUPLES[ty]):
+                if ntag(a) != ft:
+                    raise Unsupported("initialiser of %s has type %s, table says %s" % (ty, ntag(a), ft), n)
                 if ft in INT_RANGE or ft == "f64":
                     out.append(self.as_tag(a, ft))
                 else:
@@ -1065,15 +1069,10 @@ def translate():
     for d in docs:
         if d.get("kind") != "NamespaceDecl" or d.get("name") not in ("read", "write"):
             continue
-        f = (d.get("loc") or {}).get("file") or ""
         for c in kids(d):
             if c.get("kind") == "FunctionDecl" and any(x.get("kind") == "CompoundStmt" for x in kids(c)):
                 fns.append((d["name"], c["name"], c))
-    # which header does a function come from: clang prints `file` only when it changes, so annotate by range
-    sel = []
-    for ns, name, c in fns:
-        txt = json.dumps(c.get("range", {})) + json.dumps(c.get("loc", {}))
-        sel.append((ns, name, c))
+    sel = fns
     # constants and static member functions referenced from the bodies
     refs = []
     for _, _, c in sel:
